@@ -247,6 +247,25 @@ func c09Check(c c09Case) error {
 	if !reflect.DeepEqual(h2, r.Header) {
 		return fmt.Errorf("serialised header parses back differently: %+v vs %+v", h2, r.Header)
 	}
+	// (2b) serialising appends: a buffer that already holds data (records written one after the other) keeps it
+	{
+		pre := make([]byte, 1+int(c.FlipVal)%100)
+		for i := range pre {
+			pre[i] = rig.Mix(0xC09, uint32(i)) | 0x80
+		}
+		var buf2 bytes.Buffer
+		buf2.Write(pre)
+		if err := r.Header.WriteHeader(&buf2); err != nil {
+			return fmt.Errorf("Header.WriteHeader into a non-empty buffer: %v", err)
+		}
+		got := buf2.Bytes()
+		if len(got) != len(pre)+80 || !bytes.Equal(got[:len(pre)], pre) {
+			return fmt.Errorf("Header.WriteHeader into a buffer already holding %d bytes: buffer now has %d bytes and its earlier content changed at byte %d (serialising must append 80 bytes)", len(pre), len(got), firstDiff(got, pre))
+		}
+		if !bytes.Equal(got[len(pre):], buf.Bytes()) {
+			return fmt.Errorf("Header.WriteHeader appended [% x] to a non-empty buffer but produces [% x] into an empty one", got[len(pre):], buf.Bytes())
+		}
+	}
 	// the exported Header.ReadHeader parses from the reader's current position (e.g. one reader over the whole image)
 	{
 		whole := bytes.NewReader(orig)
